@@ -107,7 +107,7 @@ def gen_crash_workloads(prof, ti, seed, stats):
         return s
     if prof.get("need_delete"):
         hs = [h for h in hs if any(x["op"] == "delete" for x in h) and any(x["op"] == "store" for x in h)]
-    hs = [h for h in hs if h and h[0]["op"] == "store"]
+    hs = [h for h in hs if h and h[0]["op"] in ("store", "reopen")]
     hs.sort(key=lambda h: (-score(h), json.dumps(h, sort_keys=True)))
     # diversity: avoid identical op-kind signatures
     out, seen = [], set()
